@@ -7,7 +7,7 @@ Local Open Scope N_scope.
 Definition warn_safe : bool := match Gen_Conc.warning_reads_pool_safely with Some b => b | None => false end.
 
 Definition as_op (s : sexp) : option op :=
-  match s with SN 0 => Some Request | SN 1 => Some RequestFail | SN 2 => Some Close | _ => None end.
+  match s with SN 0 => Some Request | SN 1 => Some RequestFail | SN 2 => Some Close | SN 3 => Some RequestRetry | _ => None end.
 
 Fixpoint hung_threads (ths : list thread) (i : nat) : list nat :=
   match ths with
